@@ -17,7 +17,7 @@ from engine import (Check, tlc_ok, validate_traces, pmap, run, tool_env, BIN,
                     scratch, syms, MachineryError)
 import regen
 
-ROLES = ['source', 'output', 'srcdir', 'outdir', 'copy']
+ROLES = ['source', 'output', 'srcdir', 'outdir', 'copy', 'install', 'insthdr']
 PUNCT = list('!"#$%&\'()*+,-.:;<=>?@[]^_`{|}~ ')
 
 
@@ -143,6 +143,14 @@ def project_for(role, n):
     elif role == 'outdir':
         bfg = "executable(%r, ['main.c'])" % (n + '/prog')
         prereq, outs = 'main.c', [('file', n + '/prog')]
+    elif role == 'install':
+        bfg = "install(executable(%r, ['main.c']))" % n
+        prereq, outs = 'main.c', [('file', n)]
+    elif role == 'insthdr':
+        files[n + '.h'] = '#define X 1\n'
+        bfg = ("install(header_file(%r))\n"
+               "executable('prog', ['main.c'])" % (n + '.h'))
+        prereq, outs = 'main.c', [('file', 'prog')]
     else:
         files[n + '.txt'] = 'data\n'
         bfg = "default(copy_file(%r))" % (n + '.txt')
@@ -155,7 +163,8 @@ def run_cycle(arg):
     backend, role, n, in_scope = arg
     ev = {'backend': backend, 'role': role, 'name': syms(n),
           'in_scope': in_scope, 'configure_exit': -1, 'created': False,
-          'uptodate': False, 'noticed': False, 'cleaned': False, 'note': ''}
+          'uptodate': False, 'noticed': False, 'cleaned': False,
+          'installed': True, 'uninstalled': True, 'note': ''}
     try:
         files, prereq, outs = project_for(role, n)
         p = regen.Proj(files, backend=backend)
@@ -163,7 +172,15 @@ def run_cycle(arg):
         ev['in_scope'] = False         # the file system itself refuses
         return ev
     try:
-        rc, out = p.configure()
+        # install roles: the prefix lies inside the scratch directory (nothing
+        # can escape it even if DESTDIR were ignored); Ninja takes DESTDIR
+        # at configure time, Make on the command line
+        stage = os.path.join(p.root, 'stage dir')
+        prefix = os.path.join(p.root, 'pfx')
+        p.args += ['--prefix', prefix]
+        rc, out = p.configure(env={'DESTDIR': stage}
+                              if backend == 'ninja' and
+                              role in ('install', 'insthdr') else None)
         ev['configure_exit'] = rc
         if rc != 0:
             ev['note'] = out[-300:]
@@ -197,6 +214,24 @@ def run_cycle(arg):
         ev['noticed'] = rc == 0 and all(a != b for a, b in zip(m1, m2))
         if not ev['noticed']:
             ev['note'] = out[-300:]
+        if role in ('install', 'insthdr'):
+            want = stage + os.path.join(prefix, 'bin', n) \
+                if role == 'install' else \
+                stage + os.path.join(prefix, 'include', n + '.h')
+            if backend == 'make':
+                rc, out = p.tool(['install', 'DESTDIR=' + stage])
+            else:
+                rc, out = p.tool(['install'])
+            ev['installed'] = rc == 0 and os.path.isfile(want)
+            if not ev['installed'] and not ev['note']:
+                ev['note'] = out[-300:]
+            if backend == 'make':
+                rc, out = p.tool(['uninstall', 'DESTDIR=' + stage])
+            else:
+                rc, out = p.tool(['uninstall'])
+            ev['uninstalled'] = rc == 0 and not os.path.exists(want)
+            if ev['installed'] and not ev['uninstalled'] and not ev['note']:
+                ev['note'] = out[-300:]
         rc, out = p.tool(['clean'])
         ev['cleaned'] = rc == 0 and not any(os.path.exists(x) for x in paths)
         if not ev['cleaned'] and not ev['note']:
